@@ -77,7 +77,7 @@ CLAIMED = {
             "Trusted: Lean kernel; model tied by correspondence; is_multires_file by correspondence only; resolutions positive integers."),
     "C16": ("DESIGN.md §5 C16",
             "Lean 4 theorems (columns_any_layout, dump_eq_query, dump_option_effect (one theorem per option), load_dump_coo, load_dump_bg2, pairs_layout_independent, parseFieldParam_spec) + CLI differential correspondence over all 128 dump option combinations, dump->load round trips and all column layouts",
-            "Proof: for every injective layout the parsed field f is the line's column col f (formal content of fix D12); dump rows are the annotator mapped over the library query (C03 engines, C12 balanced cell); each dump option has its documented effect and no other; loading dumped COO/BG2 records in any order and chunking reproduces the stored table. Partial: cloadPairs = pairsSpec for any chunking is proved per chunk (counts per key and total), the cross-chunk statement is kept as an unproved Statement and asserted L1 = L0 at run time.",
+            "Proof: for every injective layout the parsed field f is the line's column col f (formal content of fix D12); dump rows are the annotator mapped over the library query (C03 engines, C12 balanced cell); each dump option has its documented effect and no other; loading dumped COO/BG2 records in any order and chunking reproduces the stored table. cloadPairs = pairsSpec for every layout, value field and cutting into reader chunks (cloadPairs_eq_spec, via the groupSum extensionality principle).",
             "Trusted: Lean kernel; model tied by correspondence; character-level CSV parsing/formatting and float formatting are pandas primitives."),
     "C15": ("DESIGN.md §5 C15",
             "Lean 4 theorems over a flat path->entry HDF5 file model with an invariant WF preserved by every operation (copy_reads_equal, copy_frame, mv_frame, mv_source_gone_partial, list_exact_history, isCooler_total, create_append_frame, create_w_replaces, recreate_replaces) + exhaustive short histories and seeded random histories against real files",
